@@ -109,6 +109,14 @@ def cexpr(e):
         return '(Ptuple %s %s)' % (L(e[1]), creps(e[2]))
     if k == 'Pslide':
         return '(Pslide %s %s %s %s %s %s)' % (L(e[1]), C(e[2]), C(e[3]), cz(e[4]), cbool(e[5]), creps(e[6]))
+    if k == 'Pseed':
+        b = e[2]
+        if b[0] == 'Prand':
+            return '(PseedRand %s %s %s)' % (C(e[1]), L(b[1]), creps(b[2]))
+        if b[0] == 'Pxrand':
+            return '(PseedXrand %s %s %s)' % (C(e[1]), L(b[1]), creps(b[2]))
+        if b[0] == 'Pwhite':
+            return '(PseedWhite %s %s %s %s)' % (C(e[1]), C(b[1]), C(b[2]), creps(b[3]))
     raise ValueError(k)
 
 
@@ -265,20 +273,44 @@ class Gen:
         G = lambda s, **kw: self.gen(s, d - 1, kw.pop('mode', 'str'), lo=lo, hi=hi, **kw)
         arith = sort in ('int', 'float', 'num')
         menu = ['Pseq', 'Pseq', 'Pser', 'Pn', 'Place', 'Plen', 'Pdrop', 'Pstutter', 'Pswitch', 'Pswitch1', 'Pif',
-                'Pslide', 'Pselect']
+                'Pslide', 'Pselect', 'Pseed']
         if arith:
             menu += ['Pdiff', 'Pconst', 'Pcollect', 'Pwrap', 'Punop', 'Pbinop', 'Pbinop', 'Pnarop', 'Pseries',
                      'Pgeom', 'Pflatten']
         if sort == 'bool':
-            menu = ['Pseq', 'Pser', 'Pn', 'Plen', 'Pcmp', 'Pcmp', 'Ppred', 'Pif']
+            menu = ['Pseq', 'Pser', 'Pn', 'Plen', 'Pcmp', 'Pcmp', 'Ppred', 'Pif', 'Pseed']
         if sort == 'list':
-            menu = ['Pseq', 'Pn', 'Plen', 'Pclump', 'Pclump', 'Ppair', 'Pstutter', 'Pdrop']
+            menu = ['Pseq', 'Pn', 'Plen', 'Pclump', 'Pclump', 'Ppair', 'Pstutter', 'Pdrop', 'Pseed']
         if sort == 'any':
             s2 = r.choice(['num', 'num', 'int', 'list', 'tuple'])
             if s2 == 'tuple':
                 return self._tuple(d, lo, hi)
             return self._gen(s2, d, mode, lo, hi)
         k = r.choice(menu)
+        if k == 'Pseed':
+            nseed = r.randint(1, 3)
+            const_seed = r.random() < 0.15
+            seeds = V(vi(r.randint(0, 50))) if const_seed else \
+                ['Pseq', [V(vi(r.randint(0, 50))) for _ in range(nseed)], r.choice([1, 1, 2]), 0]
+            if sort in ('int', 'small') and r.random() < 0.35:
+                ln = r.choice([1, 2, 3, 5]) if const_seed else r.choice([0, 1, 2, 3, 5, 'inf'])
+                lo_, fl, ml = self.gen('small', min(d - 1, 1), 'str', need_min1=True, lo=lo, hi=hi)
+                hi_, fh, mh = self.gen('small', min(d - 1, 1), 'str', need_min1=True, lo=lo, hi=hi)
+                if sort == 'int' and r.random() < 0.5:
+                    lo_, hi_, fl, fh, ml, mh = V(vi(r.randint(-5, 5))), V(vi(r.randint(-5, 12))), False, False, INFN, INFN
+                body_fin = ln != 'inf' or fl or fh
+                body = ['Pwhite', lo_, hi_, ln]
+                mnb = min(INFN if ln == 'inf' else ln, ml, mh)
+            else:
+                rp = r.choice([1, 2, 3, 4]) if const_seed else r.choice([0, 1, 2, 3, 4, 'inf'])
+                xs, finx, mns = self.items(sort, d - 1, lo, hi, need_min1=(const_seed or rp == 'inf'))
+                body = [r.choice(['Prand', 'Pxrand']), xs, rp]
+                body_fin = finx and rp != 'inf'
+                mnb = INFN if rp == 'inf' else rp * min(mns)
+            e = ['Pseed', seeds, body]
+            if const_seed:
+                return e, False, INFN
+            return e, body_fin, (mnb if mnb >= 1 else 0)
         if k in ('Pseq', 'Pser', 'Place'):
             rp = self.reps(True)
             inf = rp == 'inf'
@@ -483,7 +515,16 @@ class Gen:
         elif k == 'list_neg':
             e = ['Punop', 'neg', ['Pseq', [p, V(['l', [vi(1)]])], 1, 0]]
         elif k == 'empty':
-            e = [r.choice(['Pseq', 'Pser']), [], 1, 0]      # the constructor refuses an empty list
+            kk = r.choice(['Pseq', 'Pser', 'Place', 'Ptuple', 'Prand'])
+            rr, off = r.choice([-1, 0, 1, 2, 3]), r.choice([0, 1, -2, 5])
+            if kk == 'Ptuple':
+                e = ['Ptuple', [], 1]                         # refused by the constructor
+            elif kk == 'Prand':
+                e = ['Pseed', V(vi(3)), ['Prand', [], 2]]     # refused by the constructor
+            else:
+                # the list attribute emptied after construction (see impl/c13_patterns.build)
+                emp = [kk, [], rr, off] + ([[]] if kk == 'Place' else [])
+                e = ['Pseq', [p, emp, V(vi(7))], 2, 0] if r.random() < 0.7 else emp
         elif k == 'list_diff':
             e = ['Pdiff', ['Pclump', p, V(vi(1))]]
         elif k == 'place_empty':
@@ -540,20 +581,29 @@ def directed():
 
 
 def seeded_cases(rng, n):
+    """Pseed-wrapped Prand / Pxrand / Pwhite with small bodies (many recorded draws)."""
     I = lambda x: V(vi(x))
     out = []
     for _ in range(n):
         seed = rng.randint(0, 99)
         size = rng.randint(1, 4)
         lst = [I(rng.randint(0, 9)) for _ in range(size)]
-        k = rng.choice(['Prand', 'Pxrand', 'Pwhite', 'nest'])
+        k = rng.choice(['Prand', 'Pxrand', 'Pwhite', 'nest', 'Pwhite2'])
         if k == 'Pwhite':
             body = ['Pwhite', I(0), I(rng.randint(1, 20)), rng.randint(1, 6)]
+        elif k == 'Pwhite2':
+            body = ['Pwhite', ['Pseq', [I(rng.randint(-3, 3)) for _ in range(3)], 'inf', 0],
+                    ['Pseq', [I(rng.randint(-3, 6)) for _ in range(2)], 'inf', 0], rng.randint(1, 6)]
         elif k == 'nest':
-            body = ['Pseq', [['Prand', lst, 2], ['Pwhite', I(0), I(9), 2]], 2, 0]
+            inner = ['Pseed', I(seed), ['Pxrand', lst, 2]]       # same seed value, different call history
+            body = ['Prand', [inner, ['Pseq', lst, 1, 0], I(77)], rng.randint(1, 4)]
         else:
-            body = [k, lst, rng.randint(1, 6)]
-        out.append(['Pseed', ['Pseq', [I(seed), I(seed + 1)], 1, 0], body])
+            body = [k, lst, rng.randint(0, 6)]
+        seeds = ['Pseq', [I(seed), I(rng.choice([seed, seed + 1]))], 1, 0]
+        e = ['Pseed', seeds, body]
+        if rng.random() < 0.3:
+            e = ['Pn', e, 2]
+        out.append(e)
     return out
 
 
@@ -562,6 +612,12 @@ def cres(r):
     vals, end = r
     code = {'stop': 0, 'more': 2}.get(end, 1)
     return '(%s, %s)' % (clist(vals, cval), cnat(code))
+
+
+def ctable(draws):
+    def ch(h):
+        return '[' + '; '.join('(%s, %s)' % (cz(a), cz(b)) for a, b in h) + ']'
+    return '(T [' + '; '.join('(%s, %s, %s, %s, %s)' % (cz(s), ch(h), cz(a), cz(b), cz(r)) for s, h, a, b, r in draws) + '])'
 
 
 def has_x(r):
@@ -577,8 +633,9 @@ def canon_end(r):
 HEADER = ('From Coq Require Import ZArith QArith List NArith. Import ListNotations.\n'
           'Require Import SC3.lib.PyNum SC3.model.Pattern.\nOpen Scope nat_scope.\n'
           'Definition fuel := N.to_nat %d%%N.\n' % FUEL)
-HEADER += ('Definition chk (c : pat * nat * (list val * nat)) : nat :=\n'
-           '  let \'(p, n, r) := c in let m := run_pat fuel n p in\n'
+HEADER += ('Definition T (l : list (Z * hist * Z * Z * Z)) := l.\n'
+           'Definition chk (c : pat * nat * (list val * nat) * list (Z * hist * Z * Z * Z)) : nat :=\n'
+           '  let \'(p, n, r, tbl) := c in let m := run_pat (mk_rnd tbl) fuel n p in\n'
            '  if Nat.eqb (rend_code (snd m)) 3 then 2 else if res_eqb m r then 0 else 1.\n'
            'Fixpoint enc (l : list nat) (i : nat) : list nat :=\n'
            '  match l with [] => [] | 0 :: r => enc r (S i) | 1 :: r => i :: enc r (S i)\n'
@@ -600,17 +657,24 @@ def make_cases(ctx):
         cases.append({'expr': e, 'n': ctx.rng.choice([6, 12, 24]), 'finite': fin, 'src': 'random'})
     for _ in range(ctx.n(60, 600)):
         cases.append({'expr': g.malformed(), 'n': 12, 'finite': False, 'src': 'malformed'})
+    for e in seeded_cases(ctx.rng, ctx.n(60, 500)):
+        cases.append({'expr': e, 'n': 16, 'finite': False, 'src': 'seeded'})
     for c in cases:
         m = ctx.rng.randint(4, 2 * c['n'])
         c['sched'] = [ctx.rng.randint(0, 1) for _ in range(m)]
     return cases
 
 
+CTOR = {}
+
+
 def run_impl(ctx, cases, tag=''):
     out = []
     chunk = 1500
     for i in range(0, len(cases), chunk):
-        out.extend(ctx.impl('c13_patterns', {'cases': cases[i:i + chunk]}, timeout=900)['out'])
+        r = ctx.impl('c13_patterns', {'cases': cases[i:i + chunk]}, timeout=900)
+        out.extend(r['out'])
+        CTOR.update(r.get('ctor_empty', {}))
     return out
 
 
@@ -619,6 +683,11 @@ def correspond(ctx):
     cases = make_cases(ctx)
     out = run_impl(ctx, cases)
     items, owner = [], []          # Coq items and (case index, which observation)
+    for cls, what in sorted(CTOR.items()):
+        c.count('ctor_empty:%s:%s' % (cls, what))
+        if what != 'ValueError':
+            c.failures.append(Failure('correspondence', '%s([]) is not refused by the constructor (%s); the model assumes it is' % (cls, what),
+                                      signature='C13:ctor_accepts_empty', found_input=True, replay={'class': cls, 'got': what}))
     for i, (k, o) in enumerate(zip(cases, out)):
         e = k['expr']
         if o.get('skipped'):
@@ -653,8 +722,16 @@ def correspond(ctx):
             c.failures.append(Failure('correspondence', 'unexpected value or timeout on %s: %s' % (show(e), o['iter']),
                                       replay={'expr': e, 'show': show(e), 'iter': o['iter']}))
             continue
+        if o.get('draws_inconsistent'):
+            c.failures.append(Failure('correspondence', 'a seeded generator gave different results after the same history: %s' % show(e),
+                                      signature='C13:seeded_differs', found_input=True, theorem='seeded_same_sequence',
+                                      replay={'expr': e, 'show': show(e)}))
         pt = cexpr(e)
-        items.append('(%s, %s, %s)' % (pt, cnat(k['n']), cres(it_)))
+        tb = ctable(o.get('draws', []))
+        if o.get('draws'):
+            c.count('cases_with_recorded_draws')
+            c.count('recorded_draws', len(o['draws']))
+        items.append('(%s, %s, %s, %s)' % (pt, cnat(k['n']), cres(it_), tb))
         owner.append((i, 'iter'))
         # two interleaved streams: each must equal the model's run of a single stream
         for w in (0, 1):
@@ -667,7 +744,7 @@ def correspond(ctx):
             # the stream was asked `calls` times; after its end it is not asked again
             if tw[1] == 'more' and len(tw[0]) < calls:
                 tw = [tw[0], 'more']
-            items.append('(%s, %s, %s)' % (pt, cnat(len(tw[0]) if tw[1] == 'more' else calls), cres(tw)))
+            items.append('(%s, %s, %s, %s)' % (pt, cnat(calls), cres(tw), tb))
             owner.append((i, 'two%d' % w))
         if len(it_[0]) >= 2 and depth(e) >= 2:
             c.nontriv(e)
@@ -699,27 +776,6 @@ def correspond(ctx):
             'correspondence', 'model and implementation disagree (%s) on %s: impl=%s' % (what, show(k['expr']), o['iter'] if what == 'iter' else o['two']),
             replay={'expr': k['expr'], 'show': show(k['expr']), 'n': k['n'], 'sched': k['sched'], 'impl': o, 'observation': what}))
     c.notes.append('mismatching cases: %d of %d observations' % (len(bad), len(items)))
-    # seeded random patterns: implementation-only determinism / independence check
-    sc = [{'expr': e, 'n': 16, 'finite': False, 'sched': [ctx.rng.randint(0, 1) for _ in range(24)]}
-          for e in seeded_cases(ctx.rng, ctx.n(40, 400))]
-    so = run_impl(ctx, sc)
-    for k, o in zip(sc, so):
-        c.count('class:Pseed')
-        c.evaluations += 1
-        if o.get('skipped'):
-            continue
-        if o.get('iter') is None:
-            c.failures.append(Failure('correspondence', 'seeded case did not run: %s' % o, replay={'expr': k['expr']}))
-            continue
-        a = o['iter']
-        ok = (o['next'] == a and o['again'] == a and not o.get('mutated'))
-        for w in (0, 1):
-            tw = o['two'][w]
-            ok = ok and tw[0] == a[0][:len(tw[0])]
-        if not ok:
-            c.failures.append(Failure('correspondence', 'seeded pattern is not reproducible across streams: %s' % show(k['expr']),
-                                      signature='C13:seeded_differs', found_input=True, theorem='seeded_same_sequence',
-                                      replay={'expr': k['expr'], 'show': show(k['expr']), 'impl': o}))
     return c
 
 
